@@ -381,6 +381,7 @@ impl LogInnerManager {
         let (index_dto, file_index_len, pop_index_count) =
             self.get_file_index_by_log_index(end_index)?;
         let empty_data = vec![0u8, 1];
+        let old_data_cursor = self.data_cursor;
         if pop_index_count > 0 {
             for _i in 0..pop_index_count {
                 self.indexs.pop();
@@ -389,7 +390,10 @@ impl LogInnerManager {
             self.index_file
                 .seek(SeekFrom::Start(self.index_cursor))
                 .await?;
-            self.index_file.write_all(&empty_data).await?;
+            //clear all removed index entries, otherwise the entries behind the next written one are loaded again
+            self.index_file
+                .write_all(&vec![0u8; std::cmp::max(file_index_len as usize, empty_data.len())])
+                .await?;
             self.index_file
                 .seek(SeekFrom::Start(self.index_cursor))
                 .await?;
@@ -409,7 +413,17 @@ impl LogInnerManager {
         self.data_file
             .seek(SeekFrom::Start(self.data_cursor))
             .await?;
-        self.data_file.write_all(&empty_data).await?;
+        //clear all removed records, otherwise the records behind the next written ones are loaded again after reopen
+        let mut clear_len = std::cmp::max(
+            old_data_cursor.saturating_sub(self.data_cursor),
+            empty_data.len() as u64,
+        );
+        let clear_buf = vec![0u8; std::cmp::min(clear_len, 64 * 1024) as usize];
+        while clear_len > 0 {
+            let n = std::cmp::min(clear_len, clear_buf.len() as u64) as usize;
+            self.data_file.write_all(&clear_buf[..n]).await?;
+            clear_len -= n as u64;
+        }
         self.data_file
             .seek(SeekFrom::Start(self.data_cursor))
             .await?;
